@@ -98,12 +98,24 @@ def run_exec(binary, reqfile, outfile, args=("exec",), timeout=3600):
     return r.returncode, r.stderr.decode("utf-8", "replace")[-2000:]
 
 
+CC_TABLE = os.path.join(BUILD, "cc.tsv")
+
+
+def ensure_cc_table(force=False):
+    """The char-class table of the driver is dumped from Rust std by the harness (rebuilt with it)."""
+    if force or not os.path.exists(CC_TABLE) or os.path.getmtime(CC_TABLE) < os.path.getmtime(HARNESS_BIN):
+        with open(CC_TABLE + ".tmp", "wb") as f:
+            subprocess.run([HARNESS_BIN, "cc-dump"], stdout=f, check=True)
+        os.replace(CC_TABLE + ".tmp", CC_TABLE)
+    return CC_TABLE
+
+
 def run_both(reqfile, workdir, tag):
     """Run implementation and model on the same request file; return (impl_lines, model_lines)."""
     a = os.path.join(workdir, tag + ".impl")
     b = os.path.join(workdir, tag + ".model")
     rc1, e1 = run_exec(HARNESS_BIN, reqfile, a)
-    rc2, e2 = run_exec(DRIVER_BIN, reqfile, b, args=())
+    rc2, e2 = run_exec(DRIVER_BIN, reqfile, b, args=("--cc", ensure_cc_table()))
     if rc1 != 0:
         raise RuntimeError("harness exec failed rc=%d: %s" % (rc1, e1))
     if rc2 != 0:
